@@ -8,7 +8,6 @@ import (
 	"strings"
 )
 
-func cmdSelftest(args []string) int { return 2 }
 
 var corpus = []struct{ Dir, Type string }{
 	{"alltypes", "AllTypes"},
@@ -46,6 +45,7 @@ func (e *Engine) generateCorpus(verifDir, tmp string) (string, error) {
 		os.WriteFile(filepath.Join(gen, "go.sum"), b, 0o644)
 	}
 	for _, c := range corpus {
+		recTypeNames[c.Type] = true
 		d := filepath.Join(gen, c.Dir)
 		os.MkdirAll(d, 0o755)
 		src, err := os.ReadFile(filepath.Join(verifDir, "corpus", c.Dir, c.Dir+".go"))
